@@ -479,7 +479,7 @@ func init() {
 			runRefProfile(c, &refProfile{
 				cfg:    func(r *rand.Rand) lang.GenCfg { return lang.CfgBind() },
 				layout: calmLayout,
-				quickN: 150000, thorN: 3000000,
+				quickN: 150000, thorN: 12000000,
 				nontriv: func(cs *Case) bool { return cs.Oc != nil && cs.Oc.Binds >= 1 },
 				fixed:   c04Fixed,
 				extra: func(c *core.Ctx, i int64, cs *Case, r ImplResult, g *lang.Gen) {
